@@ -484,6 +484,7 @@ def register(gen, T):
         ("formatter/src/formatter.rs", ["format_function_param"]),
         ("formatter/src/formatter.rs", ["format_struct"]),
         ("formatter/src/formatter.rs", ["format_global_variable"]),
+        ("formatter/src/formatter.rs", ["format_location_annotations"]),
         ("formatter/src/formatter.rs", ["format_location_annotation"]),
         ("formatter/src/formatter.rs", ["format_semantic_annotation"]),
         ("parser/src/parser/errors.rs", ["get_most_relevant_result"]),
